@@ -26,7 +26,11 @@ REQUIRED = ['backends/libwayland_debug_output/parse.py:Parser.parse_all', 'backe
 CHATTER = ['page one\x0cpage two', 'a\x0bb', 'fs\x1cgs\x1drs\x1eus\x1f.', 'nel\x85here', 'ls\u2028ps\u2029end', 'y' * 70000, 'hello world', '', ' ', '\t \t', 'libEGL warning: DRI2: failed to authenticate', '[[[]]](())', '(gedit:1234): Gtk-WARNING **: 12:00:00.123: x',
            'x' * 10000, 'żółć → ↲ 日本語', '   indented text   ', '[12:00:00.123] not wayland', 'wl_surface@3.commit()', ' -> wl_display@1.sync(new id wl_callback@3)',
            '[1234.567]', '[1234.567]  -> ', '───┤ 1.0000s ├───', 'New client connection Z', '       |  already prefixed', 'Closed client connection A',
-           '0.0000 A: wl_display@1a.sync()', '\x1b[31mred\x1b[0m', 'a\x00b', '\x0b\x0c', '%s %d {} {0}']
+           '0.0000 A: wl_display@1a.sync()', '\x1b[31mred\x1b[0m', 'a\x00b', '\x0b\x0c', '%s %d {} {0}',
+           # what libwayland itself prints next to the debug lines on a protocol error, and coloured logger output
+           'wl_region@4: error 1: invalid rectangle', 'wl_display#1: error 0: invalid object 7', 'xdg_wm_base@5: error 3: xdg_surface has not been configured',
+           'error in client communication (pid 1234)', 'wl_display@1: error 1: invalid method 9 (since 1 < 4), object wl_surface@3',
+           '\x1b[1;31mERROR\x1b[0m: could not load theme', 'warn \x1b[33m!', '\x1b[0m', 'libwayland: \x1b[1mbold', 'Error: not ours', 'Warning: neither']
 
 
 def plan(tier, seed):
@@ -84,7 +88,18 @@ def expected_items(st, items, show_unprocessed):
     return exp
 
 
-def item_matches(exp, text):
+def item_matches(exp, text, color=False):
+    if color:
+        # colour on: a passed-through line is the tool's prefix and the line's own text - escape sequences included, they are
+        # part of that text - inside one pair of the tool's own sequences; everything else is compared with the tool's
+        # sequences removed (C17 has the colours themselves)
+        if exp[0] == 'pass':
+            m = re.match(r'\x1b\[[\d;]*m', text)
+            if not m:
+                return False
+            rest = text[m.end():]
+            return item_matches(exp, rest) or (rest.endswith('\x1b[0m') and item_matches(exp, rest[:-4]))
+        text = outline.strip_sgr(text)
     it = outline.parse_line(text)
     if exp[0] == 'pass':
         return text == outline.PASS_PREFIX + exp[1] or (text.startswith(outline.PASS_PREFIX) and text[len(outline.PASS_PREFIX):].strip() == exp[1].strip())
@@ -105,8 +120,8 @@ def lines_of(items, final_newline=True):
     return ls
 
 
-def run_full(ctx, st, items, show_unprocessed, final_newline, case):
-    s = Session(show_unprocessed=show_unprocessed)
+def run_full(ctx, st, items, show_unprocessed, final_newline, case, color=False):
+    s = Session(show_unprocessed=show_unprocessed, color=color)
     ls = lines_of(items, final_newline)
     s.feed(ls)
     exp = expected_items(st, items, show_unprocessed)
@@ -115,13 +130,13 @@ def run_full(ctx, st, items, show_unprocessed, final_newline, case):
     ok = True
     for idx, want in enumerate(exp):
         got = [p for k, p in per.get(idx, []) if k == 'out']
-        got = [g for g in got if outline.parse_line(g)['kind'] != 'sep']
+        got = [g for g in got if outline.parse_line(outline.strip_sgr(g) if color else g)['kind'] != 'sep']
         errs = [p for k, p in per.get(idx, []) if k == 'err']
         if errs:
             ctx.violation('error-stream', 'line %d produced on the error stream: %r' % (idx, errs[:2]), dict(case, first_bad_line=idx))
             ok = False
             break
-        if len(got) != len(want) or not all(item_matches(w, g) for w, g in zip(want, got)):
+        if len(got) != len(want) or not all(item_matches(w, g, color) for w, g in zip(want, got)):
             kind = 'conservation' if len(got) != len(want) else 'altered'
             if len(got) < len(want) and any(k == 'out' for j in range(idx + 1, len(exp)) for k, p in per.get(j, [])) and False:
                 kind = 'pace'
@@ -130,7 +145,7 @@ def run_full(ctx, st, items, show_unprocessed, final_newline, case):
             ok = False
             break
     if ok:
-        eof = [outline.parse_line(p) for k, p in per.get('eof', []) if k == 'out']
+        eof = [outline.parse_line(outline.strip_sgr(p) if color else p) for k, p in per.get('eof', []) if k == 'out']
         closed = sorted(i['conn'] for i in eof if i['kind'] == 'notice' and i['what'] == 'Closed')
         if closed != sorted(st['names'][x['ci']] for x in {x['ci']: x for k, x in items if k == 'msg'}.values()) or len(eof) != len(closed):
             ctx.violation('closed-notices', 'after the last line: %r' % [i['text'] for i in eof][:6], case)
@@ -251,6 +266,10 @@ def run(ctx, spec):
         ctx.count('message_lines', sum(1 for k, x in items if k == 'msg'))
         if st['k'] >= 2 and any(k == 'chat' for k, x in items):
             ctx.sig([h64(ls), sup])
+        if ok and i % 3 == 0:
+            # the same input with the tool's colours on (a terminal): the items owed are the same
+            s2, ok = run_full(ctx, st, items, not sup, fin, dict(case, color=True), color=True)
+            ctx.count('streams_also_run_with_colour_on')
         if ok:
             if not fin:
                 s, ok = run_full(ctx, st, items, not sup, True, case)
@@ -320,18 +339,19 @@ def replay(ctx, case):
     env.setup()
     ls = case['lines']
     if case.get('expected_items') and 'cut_lines' not in case:
-        s = Session(show_unprocessed=not case.get('supress'))
+        col = bool(case.get('color'))
+        s = Session(show_unprocessed=not case.get('supress'), color=col)
         s.feed(ls)
         per = s.per_read()
         for idx, want in enumerate(case['expected_items']):
-            got = [p for k, p in per.get(idx, []) if k == 'out' and outline.parse_line(p)['kind'] != 'sep']
+            got = [p for k, p in per.get(idx, []) if k == 'out' and outline.parse_line(outline.strip_sgr(p) if col else p)['kind'] != 'sep']
             ctx.ev()
-            if len(got) != len(want) or not all(item_matches(tuple(w), g) for w, g in zip(want, got)):
+            if len(got) != len(want) or not all(item_matches(tuple(w), g, col) for w, g in zip(want, got)):
                 ctx.violation('conservation', 'input line %d %r owes %r, produced %r' % (idx, ls[idx][:120], [w[:2] for w in want], [g[:160] for g in got]), case)
                 break
     if 'cut_lines' in case:
         ls = ls[:case['cut_lines']] + ([ls[case['cut_lines']][:case['cut_chars']]] if 'cut_chars' in case else [])
-    s = Session(show_unprocessed=not case.get('supress'))
+    s = Session(show_unprocessed=not case.get('supress'), color=bool(case.get('color')))
     s.feed(ls)
     for k, p in s.events[-40:]:
         print(k, repr(p)[:200])
